@@ -225,6 +225,22 @@ pub fn gen_pipeline(raw: &Raw, o: &PipeOpts) -> Scenario {
         let trigger = acts[pick(knob(raw, 14), acts.len())];
         b.sub_mut(host).on_notify_ops.push((trigger, vec![Op::Unsubscribe { store: s, sub: victim }]));
     }
+    // a quarter of the cases with run-time registration: a prelude subscriber registers a
+    // middleware, a reducer or another subscriber from inside its callback (the subscriber phase
+    // holds none of the store's lists, so this is as legal as doing it from a client thread)
+    if o.runtime_add && knob(raw, 11) % 4 == 1 && !acts.is_empty() {
+        if let Some(host) = b.s.prelude.iter().find_map(|o| match o { Op::Subscribe { sub, .. } => Some(*sub), _ => None }) {
+            let trigger = acts[pick(knob(raw, 12), acts.len())];
+            if !b.sub_mut(host).on_notify_ops.iter().any(|(t, _)| *t == trigger) {
+                let op = match knob(raw, 13) % 3 {
+                    0 => Op::AddMiddleware { store: s, comp: b.comp() },
+                    1 => Op::AddReducer { store: s, comp: b.comp() },
+                    _ => Op::Subscribe { store: s, sub: b.sub(SubKind::Direct) },
+                };
+                b.sub_mut(host).on_notify_ops.push((trigger, vec![op]));
+            }
+        }
+    }
     // re-entrant use: up to three notifications make a prelude subscriber dispatch a follow-up
     // into the same store from inside on_notify (it must be queued, not run inside the callback)
     if use_cb_dispatch && !acts.is_empty() {
